@@ -99,12 +99,15 @@ def dress(rng, n0, n1, st, kind, values=None):
     """states -> disparity map (Fractions/None) and mask"""
     invalid_disp = rng.choice([Fraction(-9999), None])
     offset = 1 if (n0 >= 3 and n1 >= 3 and rng.random() < 0.2) else 0
+    # a quarter of the offset cases keep arbitrary states on the border (never left by the cross-check: outside the
+    # property's domain, used only to tie mc-cnn's final mask_border to the model)
+    dirty_border = offset == 1 and rng.random() < 0.25
     disp, mask = [], []
     for r in range(n0):
         drow, mrow = [], []
         for c in range(n1):
             s = st[r][c]
-            if offset and (r in (0, n0 - 1) or c in (0, n1 - 1)):
+            if offset and (r in (0, n0 - 1) or c in (0, n1 - 1)) and not dirty_border:
                 drow.append(invalid_disp)
                 mrow.append(1)   # after cross-checking border pixels hold bit 0 only
                 continue
@@ -271,6 +274,9 @@ def spec_outputs(cs, method):
     d0, m0 = cs["disp"], cs["mask"]
     if any((m0[r][c] & OCC) and (m0[r][c] & MIS) for r in range(n0) for c in range(n1)):
         return None
+    if off > 0 and any(m0[r][c] != 1 for r in range(n0) for c in range(n1)
+                       if r < off or r >= n0 - off or c < off or c >= n1 - off):
+        return None   # the cross-check leaves bit 0 only on the border
     d1 = [row[:] for row in d0]
     m1 = [row[:] for row in m0]
     if method == "mc-cnn":
@@ -331,6 +337,8 @@ def check_property(ctx, cs, method, d1, m1):
             else:
                 continue
             break
+    else:
+        return 0, 0   # outside the property's domain: correspondence only
     n0, n1, off = cs["n0"], cs["n1"], cs["offset"]
     d0, m0 = cs["disp"], cs["mask"]
     replay = {"case": case_to_json(cs), "method": method}
